@@ -194,6 +194,20 @@ def run(ctx):
                 viol("solve -w differs from solving the structure with each bar's weight as a downward global load: %s" % d, {"args": ["solve", "-w", "x.inkfem"], "text": text})
         elif r1.status != r2.status and not (marginal(r1) or marginal(r2)):
             viol("solve -w exits %s, the structure with explicit weights exits %s" % (r1.status, r2.status), {"text": text})
+        # with -w and -p together the .inkfempre is the one pre -w writes (the structure that was solved)
+        rw = cli.run(ctx, ["pre", "-w", "x.inkfem"], files={"x.inkfem": text}, name="c13")
+        for sched in ("late", ""):
+            rwp = cli.run(ctx, ["solve", "-w", "-p", "x.inkfem"], files={"x.inkfem": text}, env={"VERIF_WRITER": sched} if sched else {}, name="c13", timeout=300)
+            runs += 1
+            if rw.status == 0 and rwp.status == 0:
+                a, b = rwp.files.get("x.inkfempre"), rw.files.get("x.inkfempre")
+                if a is None or b is None or canon_pre(a) != canon_pre(b):
+                    viol("solve -w -p (writer %s): x.inkfempre differs from what pre -w writes" % (sched or "free"), {"args": ["solve", "-w", "-p", "x.inkfem"], "text": text})
+                if r1.status == 0:
+                    d = close_texts(rwp.files.get("x.inkfemsol", ""), r1.files.get("x.inkfemsol", ""))
+                    if d:
+                        viol("solve -w -p differs from solve -w: %s" % d, {"args": ["solve", "-w", "-p", "x.inkfem"], "text": text})
+        runs += 1
         # -e is the bound actually enforced: an unreachable one fails, a loose one succeeds
         r3 = cli.run(ctx, ["solve", "-e", "1e-300", "x.inkfem"], files={"x.inkfem": text}, name="c13")
         r4 = cli.run(ctx, ["solve", "-e", "1e6", "x.inkfem"], files={"x.inkfem": text}, name="c13")
